@@ -96,6 +96,9 @@ type FoundViolation struct {
 }
 
 func warmup() {
+	if os.Getenv("VERIF_TIMING") != "" {
+		fmt.Fprintf(os.Stderr, "timing: fast goroutine ids: %v\n", GoidFast())
+	}
 	// y/zstd.go lazily creates a global encoder/decoder that own channels; they
 	// must be created outside any synctest bubble.
 	b, err := y.ZSTDCompress(nil, []byte("warmup warmup warmup warmup"), 1)
